@@ -741,7 +741,17 @@ func (tree *MutableTree) UnsetCommitting() {
 // the tree. Returns the hash and new version number.
 func (tree *MutableTree) SaveVersion() ([]byte, int64, error) {
 	version := tree.WorkingVersion()
+	// The pending initial version is consumed by this commit. If the commit does not take place
+	// (refused overwrite, storage failure) it stays pending, so that the next attempt uses the
+	// same version number instead of 1.
+	initialVersionWasSet := tree.initialVersionSet
 	tree.initialVersionSet = false
+	versionTaken := false
+	defer func() {
+		if !versionTaken {
+			tree.initialVersionSet = initialVersionWasSet
+		}
+	}()
 
 	if tree.VersionExists(version) {
 		// If the version already exists, return an error as we're attempting to overwrite.
@@ -758,9 +768,12 @@ func (tree *MutableTree) SaveVersion() ([]byte, int64, error) {
 			}
 		}
 
-		newHash := tree.WorkingHash()
+		// hashed with the version being committed: WorkingHash() would no longer see the initial
+		// version, which has just been consumed above
+		newHash := tree.root.hashWithCount(version)
 
-		if (existingRoot == nil && tree.root == nil) || (existingRoot != nil && bytes.Equal(existingRoot.hash, newHash)) { // TODO with WorkingHash
+		if (existingRoot == nil && tree.root == nil) || (existingRoot != nil && bytes.Equal(existingRoot.hash, newHash)) {
+			versionTaken = true
 			tree.version = version
 			tree.root = existingRoot
 			tree.ImmutableTree = tree.clone()
@@ -829,6 +842,7 @@ func (tree *MutableTree) SaveVersion() ([]byte, int64, error) {
 		return nil, version, err
 	}
 	committed = true
+	versionTaken = true
 	verifYield("save:committed")
 
 	tree.version = version
